@@ -3,7 +3,7 @@
    nat, positive, N, Z stay Coq datatypes. No Extract Constant / Extract Inductive here. *)
 From Coq Require Extraction.
 From Coq Require Import ExtrOcamlBasic.
-From Stef Require Import Bits BitIO Varint Codecs.
+From Stef Require Import Bits BitIO Varint Codecs Schema Wire Apply Frame Reader Writer.
 Extraction Language OCaml.
 Extraction "model.ml"
   column_bytes bits_of_bytes N_of_bits bits_of_N
@@ -12,4 +12,8 @@ Extraction "model.ml"
   leb_enc leb_dec varint_enc varint_dec zigzag_enc zigzag_dec
   u64_init u64_encode u64_decode i64_encode i64_decode
   f64_init f64_encode f64_decode bool_encode bool_decode
-  str_encode str_decode strdict_encode strdict_decode.
+  str_encode str_decode strdict_encode strdict_decode
+  build_root all_fetched own_counts compatible
+  parse_fixed_header parse_frame parse_data_frame parse_var_header parse_wire_schema
+  emit_fixed_header emit_frame emit_var_header emit_wire_schema
+  reader_open reader_read reader_next_frame frame_encode wst0 enc dec apply.
